@@ -17,6 +17,7 @@ pub mod c16;
 pub mod c17;
 pub mod c18;
 pub mod c19;
+pub mod c20;
 
 /// returns (level, rule text) of the check that ran
 pub fn run(ctx: &Ctx) -> Option<(&'static str, &'static str)> {
@@ -40,6 +41,7 @@ pub fn run(ctx: &Ctx) -> Option<(&'static str, &'static str)> {
         "C17" => Some(c17::run(ctx)),
         "C18" => Some(c18::run(ctx)),
         "C19" => Some(c19::run(ctx)),
+        "C20" => Some(c20::run(ctx)),
         _ => None,
     }
 }
